@@ -1,7 +1,7 @@
 (* C07 — dominance analysis matches the definition of (strict) dominance.
    Property theorems only; proofs are in Theory/Dominance.v. *)
 From Coq Require Import QArith List Bool Arith.
-From SKC Require Import Base.QBool Model.Dominance Theory.Dominance.
+From SKC Require Import Base.QBool Model.Dominance Theory.Dominance Theory.Dominance2.
 Import ListNotations.
 Local Open Scope nat_scope.
 
@@ -78,6 +78,39 @@ Theorem C07_no_loops : forall strict objs rows,
   rect (length objs) rows -> has_loops (dom_rel strict objs rows) (length rows) = false.
 Proof. exact accessor_no_loops. Qed.
 Print Assumptions C07_no_loops.
+
+(* the per-criterion comparison table: three boolean rows (a better, b better, equal) and the counts,
+   whichever way round the unordered-pair cache stores the pair *)
+Theorem C07_compare_is_definition : forall objs rows i j,
+  i <> j ->
+  compare_cell objs rows i j =
+  ((better_where objs (row rows i) (row rows j), better_where objs (row rows j) (row rows i),
+    equal_where objs (row rows i) (row rows j)),
+   (count_better objs (row rows i) (row rows j), count_better objs (row rows j) (row rows i),
+    count_equal objs (row rows i) (row rows j))).
+Proof. exact compare_cell_spec. Qed.
+Print Assumptions C07_compare_is_definition.
+
+Theorem C07_compare_rows_per_criterion : forall objs ra rb k,
+  k < length objs -> k < length ra -> k < length rb ->
+  nth k (better_where objs ra rb) false = better (nth k objs true) (nth k ra 0%Q) (nth k rb 0%Q) /\
+  nth k (equal_where objs ra rb) false = Qeqb (nth k ra 0%Q) (nth k rb 0%Q).
+Proof. intros. split; [apply better_where_nth|apply equal_where_nth]; assumption. Qed.
+Print Assumptions C07_compare_rows_per_criterion.
+
+(* the dominated set *)
+Theorem C07_dominated_is_definition : forall strict objs rows j,
+  rect (length objs) rows -> j < length rows ->
+  (nth j (dominated strict objs rows) false = true <->
+   exists i, i < length rows /\ i <> j /\ dom_spec strict objs (row rows i) (row rows j) = true).
+Proof. exact dominated_spec. Qed.
+Print Assumptions C07_dominated_is_definition.
+
+Theorem C07_strictly_dominated_is_dominated : forall objs rows j,
+  rect (length objs) rows -> j < length rows ->
+  nth j (dominated true objs rows) false = true -> nth j (dominated false objs rows) false = true.
+Proof. exact strictly_dominated_is_dominated. Qed.
+Print Assumptions C07_strictly_dominated_is_dominated.
 
 (* non-vacuity: a concrete matrix with a tie, a dominating pair and mixed objectives *)
 Example C07_example :
